@@ -19,8 +19,8 @@ def realPath (base name : Str) : Option Str :=
   let path := clean (join2 bpath name)
   if path = bpath ∨ hasPrefix path (trimSuffixSep bpath ++ [sep]) then some path else none
 
-/-- `BasePathFile.Name`: strings.TrimPrefix(sourcename, filepath.Clean(f.path)) -/
-def bpFileName (base sourcename : Str) : Str := trimPrefix sourcename (clean base)
+/-- `BasePathFile.Name` (as repaired): strings.TrimPrefix(sourcename, TrimSuffix(Clean(f.path), "/")) -/
+def bpFileName (base sourcename : Str) : Str := trimPrefix sourcename (trimSuffixSep (clean base))
 
 /-- the name `httpDir.Open` hands to the source: Join(dir, path.Clean("/"+name)) -/
 def httpPath (basePath name : Str) : Str :=
